@@ -15,7 +15,7 @@
    t with the scripted mutations mus). *)
 From Coq Require Import ZArith List Bool.
 From Tickit Require Import RectDefs WinRectSet WinDefs WinSpec WinInput WinInputSpec WinInputProofs WinInputMutBase WinInputMutKey WinInputMutMouse WinInputMutation.
-From Tickit Require WinLogDisjoint WinShowSpec WinHideSpec.
+From Tickit Require WinLogDisjoint WinShowSpec WinHideSpec WinInputMutationClaim.
 Import ListNotations.
 Local Open Scope Z_scope.
 
@@ -233,6 +233,53 @@ Theorem C14_mutation_rest : forall claims s h cls act tgt n0,
      c14_rest_set_checkb (t_ids n0) (fst (mouse_phase claims (mouse_order wn line col) ty btn)) (rev (i_log s')) = true).
 Proof. exact (@WinInputMutation.C14_mutation_rest). Qed.
 Print Assumptions C14_mutation_rest.
+
+(* ... and with CLAIMERS (added later, WinInputMutationClaim.v).  One mouse phase, an arbitrary
+   claim pattern, the armed mutation anywhere on the route: as long as no window INSIDE the
+   closed subtree claims this event type (claimers outside are allowed, before or after the
+   mutating window), the deliveries to the windows outside the closed subtree are, in order,
+   those of the unmutated order cut at its first claimer, and the routing returns that claimer.
+   (The hypothesis is necessary: WinInputMutationClaim.C14_claim_examples, second part -- a
+   claimer inside the closed subtree is never asked and the event travels on.) *)
+Theorem C14_mutation_rest_claim : forall claims s h cls act tgt n0,
+  armed_start s h cls act tgt n0 -> i_log s = [] ->
+  forall ty, (forall x, In x (t_ids n0) -> Z.testbit (claims x) ty = false) ->
+  forall fuel w wn btn line col s' r,
+    look s w = Some wn -> (height wn < fuel)%nat ->
+    handle_mouse fuel no_defects claims s w ty btn line col = (s', r) ->
+    c14_rest_checkb (t_ids n0) (fst (mouse_phase claims (mouse_order wn line col) ty btn)) (rev (i_log s')) = true /\
+    c14_rest_set_checkb (t_ids n0) (fst (mouse_phase claims (mouse_order wn line col) ty btn)) (rev (i_log s')) = true /\
+    r = snd (mouse_phase claims (mouse_order wn line col) ty btn).
+Proof. exact (@WinInputMutationClaim.C14_mutation_rest_claim). Qed.
+Print Assumptions C14_mutation_rest_claim.
+
+(* any claimers at all (also inside the subtree) when the claim stops the routing before the
+   mutating handler is reached: the delivery is exactly the unmutated one, keys and mouse *)
+Theorem C14_mutation_rest_claim_key : forall claims s h cls act tgt n0,
+  armed_start s h cls act tgt n0 -> i_log s = [] ->
+  forall fuel w wn s' r,
+    look s w = Some wn -> focus_okb wn = true -> (height wn < fuel)%nat ->
+    key_fired claims h cls wn = false ->
+    handle_key fuel no_defects claims s w = (s', r) ->
+    rev (i_log s') = key_spec claims wn /\
+    r = existsb (fun x => Z.testbit (claims x) 0) (key_order wn) /\
+    c14_rest_checkb (t_ids n0) (key_spec claims wn) (rev (i_log s')) = true /\
+    c14_rest_set_checkb (t_ids n0) (key_spec claims wn) (rev (i_log s')) = true.
+Proof. exact (@WinInputMutationClaim.C14_mutation_rest_claim_key). Qed.
+Print Assumptions C14_mutation_rest_claim_key.
+
+Theorem C14_mutation_rest_claim_mouse : forall claims s h cls act tgt n0,
+  armed_start s h cls act tgt n0 -> i_log s = [] ->
+  forall fuel w wn ty btn line col s' r,
+    look s w = Some wn -> (height wn < fuel)%nat ->
+    mouse_fired claims h cls ty wn line col = false ->
+    handle_mouse fuel no_defects claims s w ty btn line col = (s', r) ->
+    rev (i_log s') = fst (mouse_phase claims (mouse_order wn line col) ty btn) /\
+    r = snd (mouse_phase claims (mouse_order wn line col) ty btn) /\
+    c14_rest_checkb (t_ids n0) (fst (mouse_phase claims (mouse_order wn line col) ty btn)) (rev (i_log s')) = true /\
+    c14_rest_set_checkb (t_ids n0) (fst (mouse_phase claims (mouse_order wn line col) ty btn)) (rev (i_log s')) = true.
+Proof. exact (@WinInputMutationClaim.C14_mutation_rest_claim_mouse). Qed.
+Print Assumptions C14_mutation_rest_claim_mouse.
 
 Theorem C14_mutation_destroy : forall claims s h cls act tgt n0,
   armed_start s h cls act tgt n0 ->
